@@ -265,6 +265,26 @@ add("C20", "exploration",
     "tensor-network results are reproducible only to the truncation "
     "tolerance (2e-6), exact paths to 1e-12", "DESIGN.md 3/C20")
 
+add("C12", "exploration",
+    "runtime reference-model monitor (independent quadrature, closed forms, "
+    "weighted 1-D quadrature of the object's own correlation function) with "
+    "evidence-based classification of known quadrature findings",
+    "Triangle, square and rectangle cells at 14 position classes (incl. "
+    "cells touching or straddling the diagonal, negative differences, "
+    "TEMPO-style rectangles) of PowerLawSD, CustomSD and CustomCorrelations "
+    "objects are compared with second differences of an independent eta, "
+    "with weighted quadrature of the object's own correlation(), tiling "
+    "sums, Hermitian symmetry, T=0 closed forms, the PowerLawSD/CustomSD "
+    "twin and imaginary-time (Matsubara) integrals, over alpha, zeta in "
+    "[0.1,4], three cutoffs and eight temperature classes across the "
+    "overflow-guard crossover. Deviations caused by three documented open "
+    "findings are recognised only when a replica of the pinned integrand "
+    "reproduces the library value and a cancellation-free / finite-tail "
+    "integrand reproduces the reference.",
+    "bound 100*epsrel*sum|c_i||eta(t_i)| + 4*1.49e-8*nquad*sum|c_i| "
+    "(scipy's default epsabs is part of what the library requests)",
+    "DESIGN.md 3/C12")
+
 NOT_APPLICABLE = []
 
 
